@@ -244,6 +244,9 @@ func (e *Sim) Run(ctx *core.Ctx, idx int) {
 			}
 			w.NewOldDaemonSet(ns, "old-agent", map[string]string{"app": "old-agent"}, on)
 			ed.Annotations = map[string]string{v1.ExtendedDaemonSetOldDaemonsetAnnotationKey: "old-agent"}
+			if e.P.MultiEDS && r.Intn(2) == 0 {
+				w.NewLookalikePod(ns, "old-agent", map[string]string{"app": "old-agent"}, fmt.Sprintf("n%d", r.Intn(2)))
+			}
 		}
 		w.CreateEDS(ed)
 		refs = append(refs, edsRef{ns, name})
